@@ -7,14 +7,14 @@ namespace NV.C09
 
 /-- first a step that changes none of the fields the invariant looks at, then `t` -/
 macro "same_then " t:term : tactic =>
-  `(tactic| (refine Step.trans ?_ $t; exact Same.step ⟨rfl, rfl, rfl, rfl, rfl, rfl, rfl, rfl, rfl⟩))
+  `(tactic| (refine Step.trans ?_ $t; exact Same.step ⟨rfl, rfl, rfl, rfl, rfl, rfl, rfl, rfl, rfl, by trx⟩))
 
 /-- moving the rotating cursor inside the table -/
 theorem setCursor_step (w : W) (n : Nat) (h : ∀ l, w.users = some l → n < l.length)
     (h0 : w.users = none → n = 0) : Step w { w with nextUser := n } := by
   intro i
   exact ⟨⟨i.crashed, i.inError, i.inMeh, i.live, i.inj, i.len, h, h0, i.bound⟩,
-    ⟨fun _ c hc hcl => ⟨c, hc, hcl⟩, fun _ _ _ _ _ ho => ho, rfl, rfl, rfl⟩⟩
+    ⟨fun _ c hc hcl => ⟨c, hc, hcl⟩, fun _ _ _ _ _ ho => ho, rfl, rfl, rfl, TrExt.of_eq rfl⟩⟩
 
 theorem scanUsers_step : ∀ (n : Nat) (w : W), Step w (scanUsers n w).1 := by
   intro n
@@ -79,7 +79,8 @@ theorem commandStage_step (rh : HookFn) (hrh : HookOK rh) (w : W) (cg : Oid) (li
   · split
     · exact Step.refl w
     · simp only []
-      have h := Step.trans (emit_same w (.tCmd cg line)).step (hrh _ cg (.cmd line))
+      have h := Step.trans (emit_same w (.tCmd cg (line.take (maxVerbBuff - 1)).toString)).step
+        (hrh _ cg (.cmd (line.take (maxVerbBuff - 1)).toString))
       split
       · exact h
       · exact Step.trans h (addOut_step _ _ _)
@@ -174,7 +175,7 @@ theorem resetObject_step (rh : HookFn) (hrh : HookOK rh) (w : W) (k : Nat) : Ste
     by same_then (hrh _ _ _)
   split
   · exact h
-  · exact Step.trans h (Same.step ⟨rfl, rfl, rfl, rfl, rfl, rfl, rfl, rfl, rfl⟩)
+  · exact Step.trans h (Same.step ⟨rfl, rfl, rfl, rfl, rfl, rfl, rfl, rfl, rfl, by trx⟩)
 
 theorem sweepResets_step (rh : HookFn) (hrh : HookOK rh) : ∀ (ks : List Nat) (w : W), Step w (sweepResets rh ks w) := by
   intro ks
@@ -201,7 +202,7 @@ theorem sweepCallOuts_step (rh : HookFn) (hrh : HookOK rh) : ∀ (n : Nat) (w : 
     · rename_i c rest _
       split
       · simp only []
-        have h0 : Step w { w with callouts := rest } := Same.step ⟨rfl, rfl, rfl, rfl, rfl, rfl, rfl, rfl, rfl⟩
+        have h0 : Step w { w with callouts := rest } := Same.step ⟨rfl, rfl, rfl, rfl, rfl, rfl, rfl, rfl, rfl, by trx⟩
         split
         · exact Step.trans h0 (ih _)
         · refine Step.trans ?_ (ih _)
@@ -216,13 +217,13 @@ theorem hbRound_step (rh : HookFn) (hrh : HookOK rh) (w : W) : Step w (hbRound r
       by same_then (hbLoop_step rh hrh _ _)
     split
     · exact h
-    · exact Step.trans h (Same.step ⟨rfl, rfl, rfl, rfl, rfl, rfl, rfl, rfl, rfl⟩)
+    · exact Step.trans h (Same.step ⟨rfl, rfl, rfl, rfl, rfl, rfl, rfl, rfl, rfl, by trx⟩)
   · exact Step.refl w
 
 theorem timerSweeps_step (rh : HookFn) (hrh : HookOK rh) (w : W) : Step w (timerSweeps rh w) := by
   unfold timerSweeps
   simp only []
-  have h0 : Step w { w with curHb := none } := Same.step ⟨rfl, rfl, rfl, rfl, rfl, rfl, rfl, rfl, rfl⟩
+  have h0 : Step w { w with curHb := none } := Same.step ⟨rfl, rfl, rfl, rfl, rfl, rfl, rfl, rfl, rfl, by trx⟩
   have h1 : Step w (if ({ w with curHb := none } : W).now < ({ w with curHb := none } : W).nextSweep
       then ({ w with curHb := none } : W)
       else popCtx (sweepResets rh ({ w with curHb := none } : W).objList
@@ -231,7 +232,7 @@ theorem timerSweeps_step (rh : HookFn) (hrh : HookOK rh) (w : W) : Step w (timer
     · exact h0
     · refine Step.trans h0 ?_
       refine Step.trans (b := { ({ w with curHb := none } : W) with nextSweep := ({ w with curHb := none } : W).now + sweepPeriod })
-        (Same.step ⟨rfl, rfl, rfl, rfl, rfl, rfl, rfl, rfl, rfl⟩) ?_
+        (Same.step ⟨rfl, rfl, rfl, rfl, rfl, rfl, rfl, rfl, rfl, by trx⟩) ?_
       exact Step.bracket (sweepResets_step rh hrh _ _)
   exact Step.trans h1 (Step.bracket (sweepCallOuts_step rh hrh _ _))
 
